@@ -155,9 +155,8 @@ impl Merge for WeightedMean {
             return;
         }
         let total_weight_sum = self.weight_sum + other.weight_sum;
-        self.weighted_avg = (self.weight_sum * self.weighted_avg
-            + other.weight_sum * other.weighted_avg)
-            / total_weight_sum;
+        self.weighted_avg += (other.weight_sum / total_weight_sum)
+            * (other.weighted_avg - self.weighted_avg);
         self.weight_sum = total_weight_sum;
     }
 }
